@@ -49,7 +49,9 @@ package internal
 //
 //@ define RTS = "credentials.PerRPCCredentials.RequireTransportSecurity"
 //@ func ApplyPerRPCCreds
-//@   ensures[C13] no_creds_passthrough: old(copts.Creds) == nil ==> result0 == ctx && result1 == nil && !called("credentials.PerRPCCredentials.GetRequestMetadata") && !called("credentials.PerRPCCredentials.RequireTransportSecurity")
+//@   ensures[C13] no_creds_passthrough: old(copts.Creds) == nil ==> result0 == ctx && result1 == nil
+//@   ensures[C13] no_creds_no_credential_calls: old(copts.Creds) == nil ==> !called("credentials.PerRPCCredentials.GetRequestMetadata") && !called("credentials.PerRPCCredentials.RequireTransportSecurity")
+//@   ensures[C13] error_returns_no_context: result1 != nil ==> result0 == nil
 //@   ensures[C13] insecure_transport_refused: called("credentials.PerRPCCredentials.RequireTransportSecurity") && lastresult("credentials.PerRPCCredentials.RequireTransportSecurity") && !isChannelSecure ==> result1 != nil && !called("credentials.PerRPCCredentials.GetRequestMetadata")
 //@   ensures[C13] security_always_consulted: old(copts.Creds) != nil ==> called("credentials.PerRPCCredentials.RequireTransportSecurity")
 //@   assert_call[C13] credentials.PerRPCCredentials.GetRequestMetadata : security_checked_first: called("credentials.PerRPCCredentials.RequireTransportSecurity") && (!lastresult("credentials.PerRPCCredentials.RequireTransportSecurity") || isChannelSecure)
